@@ -16,6 +16,42 @@ def run(ck):
         cases.append(c)
     ck.stream("random-schedules", cases, "C01_lts", "C01_lts", "C01_ok",
               nontrivial=lambda c: len(c[4]) >= 3 and c[1] >= 2, sig=lambda c, e, o: "lts", timeout=1500)
-    return ck.finish(rule="random schedules of publisher / attach / stop / consumer goroutines (1-4 consumers, <= 20 packets on the "
+    transports(ck)
+    return ck.finish(rule="(2) transport adapters: " + TRANSPORT_RULE + " (1) random schedules of publisher / attach / stop / consumer goroutines (1-4 consumers, <= 20 packets on the "
                           "video and audio channels incl. parameter sets and key frames, GOP cache on/off) replayed through the "
                           "schedule points on a real media.Stream with recording consumers; non-trivial = >= 2 consumers and >= 3 packets")
+
+
+# ---------------------------------------------------------------- transport adapters
+import trgen as T
+from vlib import vparse, Broken
+
+TRANSPORT_RULE = ("scripted packet lists (4-14 packets on all four channels: SPS/PPS/IDR/non-IDR NAL units, AAC access units, RTCP "
+                  "sender reports; 2..1400 bytes, 30% of the cases without UDP clients also 4000..65535) published into a registered "
+                  "media.Stream while 1-3 clients of mixed transports (RTSP/TCP, RTSP/UDP, ws-rtsp, WSP, HTTP-FLV, ws-FLV) with varied "
+                  "channel maps (swapped, high channel numbers, video-only, audio-only, RTP without RTCP) attach at scripted positions, "
+                  "some stop mid-stream (TEARDOWN or dropped connection), then the stream ends (Close / replaced / idle); every RTP client "
+                  "must have received exactly the subscribed sublist of replay ++ live (ok_wire), every FLV client exactly the tags of an "
+                  "in-process consumer attached at the same quiescent moment (ok_flv); non-trivial = >= 2 clients or a mid-stream attach.")
+
+def transports(ck):
+    rng = ck.rng
+    n = 900 if ck.thorough else 70
+    pool = [T.TCP, T.TCP, T.UDP, T.WSRTSP, T.WSP, T.HTTPFLV, T.WSFLV]
+    cases = [T.gen_case(rng, True, pool, max_pkts=22 if ck.thorough else 14) for _ in range(n)]
+    obs = ck.stream("transports", cases, None, "C01_transports", "C01_wire_ok", compare=False,
+                    nontrivial=lambda c: len(c[2]) >= 2 or c[3][0][0] == 0,
+                    sig=lambda c, e, o: "transport-" + "-".join(sorted({str(cl[0]) for cl in c[2]})), timeout=1500)
+    # non-vacuity: media really flowed through every transport
+    seen = {}
+    for c, o in zip(cases, obs):
+        try:
+            v = vparse(o)
+            for cl, ob in zip(c[2], v[0]):
+                if len(ob[0]) >= 3:
+                    seen[cl[0]] = seen.get(cl[0], 0) + 1
+        except Exception:
+            pass
+    ck.extra["transport_clients_with_media"] = {str(k): v for k, v in sorted(seen.items())}
+    if obs and any(seen.get(k, 0) < 2 for k in range(6)):
+        ck.broken.append(Broken("C01 transports: a transport no longer carries media in the harness: %r" % seen))
